@@ -201,6 +201,67 @@ theorem fold_debugNew (t : PrecTable) (sp : Spacing) (orc : Oracle) (s : St) (e 
 
 def foldMap (t : PrecTable) (sp : Spacing) (orc : Oracle) : ExprMap := ⟨foldE t sp orc, foldArguments t sp orc, false⟩
 
+theorem operandVal_core (e : Expr) (v : FVal) (h : operandVal e = some v) : coreE e = true := by
+  cases e <;> simp [operandVal] at h
+  rfl
+
+theorem foldBinOp_core (t : PrecTable) (sp : Spacing) (orc : Oracle) (l : Expr) (op : BinOpK) (r : Expr) :
+    coreE (foldBinOp t sp orc l op r) = (coreE l && coreE r) := by
+  by_cases hch : foldBinOp t sp orc l op r = .binOp l op r
+  · rw [hch]; rfl
+  · obtain ⟨lv, rv, _, hl, hr, _, _, _, _, _⟩ := foldBinOp_changed t sp orc l op r hch
+    rw [operandVal_core l lv hl, operandVal_core r rv hr]
+    rcases foldBinOp_shape t sp orc l op r with h1 | ⟨c, h1⟩ | ⟨c, h1⟩
+    · exact absurd h1 hch
+    · rw [h1]; rfl
+    · rw [h1]; rfl
+
+/-- folding neither makes nor unmakes a core expression -/
+theorem fold_coreE (t : PrecTable) (sp : Spacing) (orc : Oracle) : (e : Expr) → coreE (foldE t sp orc e) = coreE e
+  | .constant _ => by simp [foldE]
+  | .name .. => by simp [foldE]
+  | .unaryOp op v => by simp only [foldE, coreE]; exact fold_coreE t sp orc v
+  | .binOp l op r => by
+    simp only [foldE]
+    rw [foldBinOp_core, fold_coreE t sp orc l, fold_coreE t sp orc r]; rfl
+  | .compare l ops cs => by
+    simp only [foldE, foldL_eq_map]
+    match ops, cs with
+    | [op], [r] => simp only [List.map, coreE]; rw [fold_coreE t sp orc l, fold_coreE t sp orc r]
+    | [], _ => simp [coreE]
+    | [_], [] => simp [coreE]
+    | [_], _ :: _ :: _ => simp [coreE]
+    | _ :: _ :: _, _ => simp [coreE]
+  | .boolOp op vs => by
+    simp only [foldE, foldL_eq_map]
+    match vs with
+    | [a, b] => simp only [List.map, coreE]; rw [fold_coreE t sp orc a, fold_coreE t sp orc b]
+    | [] => simp [coreE]
+    | [_] => simp [coreE]
+    | _ :: _ :: _ :: _ => simp [coreE]
+  | .ifExp c a b => by
+    simp only [foldE, coreE]; rw [fold_coreE t sp orc c, fold_coreE t sp orc a, fold_coreE t sp orc b]
+  | .namedExpr .. => by simp [foldE, coreE]
+  | .lambda .. => by simp [foldE, coreE]
+  | .dict .. => by simp [foldE, coreE]
+  | .set _ => by simp [foldE, coreE]
+  | .listComp .. => by simp [foldE, coreE]
+  | .setComp .. => by simp [foldE, coreE]
+  | .dictComp .. => by simp [foldE, coreE]
+  | .generatorExp .. => by simp [foldE, coreE]
+  | .await .. => by simp [foldE, coreE]
+  | .yield .. => by simp [foldE, coreE]
+  | .yieldFrom .. => by simp [foldE, coreE]
+  | .call .. => by simp [foldE, coreE]
+  | .joinedStr .. => by simp [foldE, coreE]
+  | .attribute .. => by simp [foldE, coreE]
+  | .subscript .. => by simp [foldE, coreE]
+  | .starred .. => by simp [foldE, coreE]
+  | .list .. => by simp [foldE, coreE]
+  | .tuple .. => by simp [foldE, coreE]
+  | .slice .. => by simp [foldE, coreE]
+  | .paren .. => by simp [foldE, coreE]
+
 theorem fold_exprOK (t : PrecTable) (sp : Spacing) (orc : Oracle) : ExprOK (foldMap t sp orc) where
   evalOK := fun s e h => foldE_evalE t sp orc s e h
   name := fun x c => by simp [foldMap, foldE]
@@ -212,6 +273,7 @@ theorem fold_exprOK (t : PrecTable) (sp : Spacing) (orc : Oracle) : ExprOK (fold
   handlerTy := fun ty => excKind_map _ (fold_nameOf_eq t sp orc) (fun es => by simp [foldE, foldL_eq_map]) (fold_notTuple t sp orc) ty
   debugKeep := fold_debugKeep t sp orc
   debugNew := fun s e h1 h2 => fold_debugNew t sp orc s e h1 h2
+  core := fold_coreE t sp orc
 
 /-- constant folding of a whole module refines its PyCore behaviour, for any oracle -/
 theorem run_foldModule (t : PrecTable) (sp : Spacing) (orc : Oracle) (n : Nat) (md : Module)
@@ -307,6 +369,49 @@ theorem pos_debugNew (s : St) (e : Expr) (h1 : isDebugTest e = false)
   all_goals (simp only [ExprMap.mapE, id] at h2; simp [isDebugTest] at h2)
 
 open PMV.Transforms in
+theorem pos_coreE : (e : Expr) → coreE (ExprMap.mapE id mergePosonly e) = coreE e
+  | .constant _ => by simp [ExprMap.mapE]
+  | .name .. => by simp [ExprMap.mapE]
+  | .unaryOp op v => by simp only [ExprMap.mapE, id, coreE]; exact pos_coreE v
+  | .binOp l op r => by simp only [ExprMap.mapE, id, coreE]; rw [pos_coreE l, pos_coreE r]
+  | .compare l ops cs => by
+    simp only [ExprMap.mapE, id, posL_eq_map]
+    match ops, cs with
+    | [op], [r] => simp only [List.map, coreE]; rw [pos_coreE l, pos_coreE r]
+    | [], _ => simp [coreE]
+    | [_], [] => simp [coreE]
+    | [_], _ :: _ :: _ => simp [coreE]
+    | _ :: _ :: _, _ => simp [coreE]
+  | .boolOp op vs => by
+    simp only [ExprMap.mapE, id, posL_eq_map]
+    match vs with
+    | [a, b] => simp only [List.map, coreE]; rw [pos_coreE a, pos_coreE b]
+    | [] => simp [coreE]
+    | [_] => simp [coreE]
+    | _ :: _ :: _ :: _ => simp [coreE]
+  | .ifExp c a b => by simp only [ExprMap.mapE, id, coreE]; rw [pos_coreE c, pos_coreE a, pos_coreE b]
+  | .namedExpr .. => by simp [ExprMap.mapE, coreE]
+  | .lambda .. => by simp [ExprMap.mapE, coreE]
+  | .dict .. => by simp [ExprMap.mapE, coreE]
+  | .set _ => by simp [ExprMap.mapE, coreE]
+  | .listComp .. => by simp [ExprMap.mapE, coreE]
+  | .setComp .. => by simp [ExprMap.mapE, coreE]
+  | .dictComp .. => by simp [ExprMap.mapE, coreE]
+  | .generatorExp .. => by simp [ExprMap.mapE, coreE]
+  | .await .. => by simp [ExprMap.mapE, coreE]
+  | .yield .. => by simp [ExprMap.mapE, coreE]
+  | .yieldFrom .. => by simp [ExprMap.mapE, coreE]
+  | .call .. => by simp [ExprMap.mapE, coreE]
+  | .joinedStr .. => by simp [ExprMap.mapE, coreE]
+  | .attribute .. => by simp [ExprMap.mapE, coreE]
+  | .subscript .. => by simp [ExprMap.mapE, coreE]
+  | .starred .. => by simp [ExprMap.mapE, coreE]
+  | .list .. => by simp [ExprMap.mapE, coreE]
+  | .tuple .. => by simp [ExprMap.mapE, coreE]
+  | .slice .. => by simp [ExprMap.mapE, coreE]
+  | .paren .. => by simp [ExprMap.mapE, coreE]
+
+open PMV.Transforms in
 theorem pos_exprOK : ExprOK posMap where
   evalOK := fun s e h => homo_evalE _ _ posE_homo s e h
   name := fun x c => by simp [posMap, ExprMap.mapE]
@@ -318,6 +423,7 @@ theorem pos_exprOK : ExprOK posMap where
   handlerTy := fun ty => excKind_map _ pos_nameOf_eq (fun es => by simp [ExprMap.mapE, posL_eq_map]) pos_notTuple ty
   debugKeep := pos_debugKeep
   debugNew := pos_debugNew
+  core := pos_coreE
 
 /-- positional-only conversion refines the PyCore behaviour of a whole module -/
 theorem run_removePosargs (n : Nat) (md : Module) (hcore : (run n md).ending ≠ "stuck") :
